@@ -6,6 +6,7 @@ reply:    `state # state # ...`  after every op the whole pool (and what the op 
           an op that raises prints its error kind and ends the sequence.
 -/
 import IrisVerif.Model.Series
+import IrisVerif.Model.SeriesHeap
 import IrisVerif.Driver.Util
 
 open IrisVerif.Dates IrisVerif.Series IrisVerif.Driver
@@ -179,21 +180,26 @@ def parseOp (ws : List String) : Option Op :=
   | ["rw", i, t, c, new] => do pure (.replaceWhere (← i.toNat?) (← testFn? t c) (← cell? new))
   | _ => none
 
-def runOps (p : Pool) : List String → List String
+def showClasses (h : Heap) : String := " ~ " ++ ",".intercalate (h.classes.map toString)
+
+/-- values and buffers side by side: the pool of series and the heap of buffer classes -/
+def runOps (p : Pool) (h : Heap) : List String → List String
   | [] => []
   | o :: rest =>
     match parseOp (words o) with
     | none => ["bad-op"]
     | some op =>
-      match step p op with
+      match IrisVerif.Series.step p op with
       | .error e => [showErr e]
-      | .ok (p', out) => (showOutput out ++ showPool p') :: runOps p' rest
+      | .ok (p', out) =>
+        let h' := h.step op
+        (showOutput out ++ showPool p' ++ showClasses h') :: runOps p' h' rest
 
 def step (line : String) : String :=
   match (line.splitOn "|").map (fun x => x.trimAscii.toString) with
   | n :: ops =>
     (match n.toNat? with
-     | some n => " # ".intercalate (runOps (List.replicate n (Series.new .I 1)) (ops.filter (· ≠ "")))
+     | some n => " # ".intercalate (runOps (List.replicate n (Series.new .I 1)) (Heap.init n) (ops.filter (· ≠ "")))
      | none => "bad-op")
   | _ => "bad-op"
 
